@@ -45,6 +45,9 @@ EXTRA = [
     "@subheader '''import ast\n'''\n@class P2\nstart: a=NAME NEWLINE { ast.Name(id=a.string) }\n",
     "@trailer '''\nPARSER = {class_name}\n'''\nstart: NAME (',' NAME)* NEWLINE\n",
     "@class Q\n@header '''import os\n'''\n@subheader '''X = 1\n'''\n@trailer '''Y = Q\n'''\n@whatever foo\nstart: 'a'+ NEWLINE\n",
+    # a rule whose body is a group around a group: generating twice from one Grammar object must not peel a second level
+    "start: pair NEWLINE\npair: (('(' NAME ',' NAME ')' | NAME))\n",
+    "start: ((NAME NUMBER | NUMBER)) NEWLINE\n",
     # several left-recursive components and chains that enter a component at a member other than the one the traversal
     # found first: the order in which the analysis walks its name sets must not show in the decorators
     "start: x NEWLINE | e NEWLINE\nx: y 'a' | 'p'\ny: x 'b' | 'q'\ne: f 'c'\nf: g 'd'\ng: y 'e'\n",
